@@ -250,6 +250,7 @@ def run_case(case):
             return obs
         peer = rig.peer
         pending_frames = []
+        outside = 0          # DATA frames that reached the peer while no sender was running
         for k, op in enumerate(case['ops']):
             tok = op[0]
             rig.calls = 0
@@ -281,13 +282,16 @@ def run_case(case):
             for (i, data, fcl) in fr:
                 obs['frames'].append({'after_op': k, 'sender': i, 'data': data, 'fcl': fcl})
             pending_frames += [(i, len(d)) for i, d, _ in fr]
+            if tok not in ('q', 'qp'):
+                outside += len(fr)
             if tok in ('q', 'qp'):
                 cw, sws, mf = rig.windows()
                 obs['records'].append({
                     'chunks': pending_frames, 'pcs': rig.pcs(), 'cw': cw, 'sws': sws, 'mf': mf,
                     'wr': rig.conn.write_ready.is_set(), 'paused': rig.transport.paused, 'op': k,
-                    'paused_before': paused_before})
+                    'paused_before': paused_before, 'outside': outside})
                 pending_frames = []
+                outside = 0
         obs['violations'] = [type(v).__name__ for v in peer.violations]
         obs['status'] = list(rig.pcs())
         obs['errors'] = [None if e is None else type(e).__name__ for e in rig.errors]
